@@ -2,6 +2,7 @@ package ksim
 
 import (
 	"bufio"
+	"fmt"
 	"encoding/json"
 	"os"
 	"strconv"
@@ -25,6 +26,10 @@ func TestWorker(t *testing.T) {
 	count, _ := strconv.Atoi(os.Getenv("KSIM_COUNT"))
 	budget, _ := strconv.ParseFloat(os.Getenv("KSIM_BUDGET_S"), 64)
 	prop := os.Getenv("KSIM_PROPERTY")
+	if os.Getenv("KSIM_ENUM") != "" {
+		enumWorker(t, prop, seed0, stride, count, budget, out)
+		return
+	}
 	f, err := os.Create(out)
 	if err != nil {
 		t.Fatal(err)
@@ -52,5 +57,82 @@ func TestWorker(t *testing.T) {
 		}
 		_ = enc.Encode(line)
 		w.Flush()
+	}
+}
+
+// enumWorker: systematic fault placement (C06, C18).  For each baseline seed a fault-free run is
+// recorded (number of fault-eligible calls N, terminal digest); the same tape is then re-executed
+// with one fault forced at every call index j (stride for long baselines) and every fault kind.
+// Oracles: all safety oracles of the run, liveness after the fault, and equality of the terminal
+// abstract state with the baseline.
+func enumWorker(t *testing.T, prop string, seed0, stride int64, count int, budget float64, out string) {
+	f, err := os.Create(out)
+	if err != nil {
+		t.Fatal(err)
+	}
+	defer f.Close()
+	w := bufio.NewWriter(f)
+	defer w.Flush()
+	enc := json.NewEncoder(w)
+	start := time.Now()
+	kinds := []string{"crash-after", "crash-before", "err-before", "err-after", "conflict"}
+	quiet := enumQuiet(prop)
+	for i := 0; count <= 0 || i < count; i++ {
+		if budget > 0 && time.Since(start).Seconds() > budget {
+			break
+		}
+		seed := seed0 + int64(i)*stride
+		base := RunOne(t, NewTape(seed), seed, RunOpts{Property: prop, Mutate: quiet})
+		emit := func(res *RunResult, forced map[int]string) {
+			line := map[string]interface{}{"seed": seed, "family": res.Scenario.Family, "steps": res.Steps, "sim_s": res.SimSeconds, "end": res.EndReason,
+				"writes": res.Writes, "calls": res.Calls, "stats": res.Stats, "probes": res.Probes, "violations": res.Violations,
+				"trace_hash": res.TraceHash, "log_hash": res.LogHash, "final": res.Final, "nchoices": len(res.Choices), "forced": forced, "enum": true}
+			if len(res.Violations) > 0 {
+				line["scenario"] = res.Scenario
+				line["trace"] = res.Trace
+				line["choices"] = res.Choices
+			}
+			_ = enc.Encode(line)
+			w.Flush()
+		}
+		base.Probes["enum.baselines"] = 1
+		emit(base, nil)
+		if len(base.Violations) > 0 || base.EndReason != "quiescent" {
+			continue
+		}
+		n := base.Calls
+		step := 1
+		if n > 60 {
+			step = n / 60
+		}
+		for j := int(seed) % step; j < n; j += step {
+			if budget > 0 && time.Since(start).Seconds() > budget {
+				break
+			}
+			kind := kinds[(j+int(seed))%len(kinds)]
+			forced := map[int]string{j: kind}
+			res := RunOne(t, ReplayTape(base.Choices), seed, RunOpts{Property: prop, Mutate: quiet, Forced: forced})
+			res.Probes["enum.positions"] = 1
+			if res.Digest != base.Digest && res.EndReason == "quiescent" {
+				res.Violations = append(res.Violations, Violation{Property: "C06", Oracle: "D1-final-state", Sig: "D1/" + res.Scenario.Family + "/" + kind + "|ev=",
+					Seq: uint64(j), Detail: fmt.Sprintf("after %s at call %d the run ends in a different cluster state than the undisturbed run:\n  faulty : %s\n  clean  : %s", kind, j, res.Digest, base.Digest)})
+			}
+			emit(res, forced)
+		}
+	}
+}
+
+// enumQuiet: baseline configuration of systematic fault placement: no random faults, no disturbances
+// other than the deletion C18 asks for.
+func enumQuiet(prop string) func(sc *Scenario, cfg *Config) {
+	return func(sc *Scenario, cfg *Config) {
+		cfg.ErrBefore, cfg.ErrAfter, cfg.Conflict, cfg.CrashAtCall, cfg.EventDup, cfg.ClockJump, cfg.PodFlap, cfg.PodKill, cfg.FaultsStopAt = 0, 0, 0, 0, 0, 0, 0, 0, 0
+		keep := sc.Events[:0]
+		for _, e := range sc.Events {
+			if prop == "C18" && e.Kind == "delete-rollout" {
+				keep = append(keep, e)
+			}
+		}
+		sc.Events = keep
 	}
 }
